@@ -170,6 +170,9 @@ pub enum Op {
     AppPubrel { nth: u8 },
     /// manual PUBREL carrying a Reason String (v5.0): larger than a tight Maximum Packet Size
     AppPubrelBig { nth: u8 },
+    /// manual PUBREL carrying a failure reason code (v5.0, 0x92 Packet Identifier not found): the
+    /// exchange still awaits its PUBCOMP, so the packet is stored and re-sent like any other PUBREL
+    AppPubrelRc { nth: u8 },
     PeerPub { qos: u8, id: u32, dup: bool, topic: u8, alias: u8, pad: u16 },
     PeerPubrel { id: u32 },
     /// manual PUBACK / PUBREC / PUBCOMP for the nth unanswered inbound packet
@@ -737,7 +740,7 @@ impl Solo {
                 }
                 self.peer_send(&p);
             }
-            Op::AppPubrel { nth } | Op::AppPubrelBig { nth } => {
+            Op::AppPubrel { nth } | Op::AppPubrelBig { nth } | Op::AppPubrelRc { nth } => {
                 if self.w.lenient {
                     return;
                 }
@@ -750,6 +753,9 @@ impl Solo {
                 if matches!(op, Op::AppPubrelBig { .. }) && v == 5 {
                     p.rc = Some(0);
                     p.props.push(Prop::ReasonString("released-by-the-application".into()));
+                }
+                if matches!(op, Op::AppPubrelRc { .. }) && v == 5 {
+                    p.rc = Some(0x92);
                 }
                 self.app_send(&p);
             }
@@ -1674,7 +1680,13 @@ pub fn gen_op(s: &Solo, r: &mut Rng, prof: &GenProfile) -> Op {
             _ => Op::AppAnswer,
         },
         13 => {
-            if v5 && r.chance(1, 4) { Op::AppPubrelBig { nth: r.below(4) as u8 } } else { Op::AppPubrel { nth: r.below(4) as u8 } }
+            if v5 && r.chance(1, 4) {
+                Op::AppPubrelBig { nth: r.below(4) as u8 }
+            } else if v5 && r.chance(1, 4) {
+                Op::AppPubrelRc { nth: r.below(4) as u8 }
+            } else {
+                Op::AppPubrel { nth: r.below(4) as u8 }
+            }
         }
         14 => Op::PeerSuback { nth: r.below(4) as u8, wrong: cfg.f_wrongack && r.chance(1, 10) },
         _ => {
